@@ -188,6 +188,10 @@ func runC16P(r *simkit.Run, c Cfg) {
 				cl.returned = true
 				if op == 3 && closeCalled {
 					t.Logf("Next -> message-or-closed") // runtime select coin
+				} else if (op == 1 || op == 2) && closeCalled && (cl.err == nil || errors.Is(cl.err, announce.ErrClosed)) {
+					// a Direct call that was past its checks when Close came
+					// finds the queue free and the receiver closed: the same coin
+					t.Logf("%s -> delivered-or-closed", cl.name)
 				} else {
 					t.Logf("%s -> %v", cl.name, errClass(cl.err))
 				}
